@@ -73,9 +73,21 @@ def run(ctx):
         s = SMCSamples(x, log_likelihood=ll, log_prior=lp, log_q=lq, beta=b0, xp=xp, dtype=dt,
                        parameters=[f"p{i}" for i in range(d)])
         rng = SpyRng(idx)
+        # "the current population": a population whose weights were already looked at (as the loop does before every step) and whose
+        # likelihood values were then re-assigned is still resampled according to the fields it has NOW
+        hist = ctx.rng.random() < 0.3
+        if hist:
+            try:
+                s.log_weights(b1)
+                s.log_evidence_ratio(b1)
+                s.log_p_t(b1)
+                s.log_likelihood = xp.flip(s.log_likelihood, axis=0)
+            except Exception as e:
+                ctx.violation(f"reassign-raises:{type(e).__name__}:{nsname}", f"weights then field assignment raised {e!r}", {"ns": nsname, "dtype": width, "N": n})
+                continue
         case = {"ns": nsname, "dtype": width, "N": n, "dims": d, "beta": b0, "beta_new": b1, "n_samples": size, "idx": idx[:12],
-                "ll": ll[:6], "lp": lp[:6], "lq": lq[:6]}
-        ctx.count((nsname, width, n, size, b0, b1, round(ll[0], 6), style), n >= 2 and len(set(idx)) >= 1, kind=f"{nsname}/{width}/{style}")
+                "ll": ll[:6], "lp": lp[:6], "lq": lq[:6], "weights_inspected_then_log_likelihood_reversed": hist}
+        ctx.count((nsname, width, n, size, b0, b1, round(ll[0], 6), style), n >= 2 and len(set(idx)) >= 1, kind=f"{nsname}/{width}/{style}" + ("/reassigned" if hist else ""))
         if rep < 3:
             ctx.sample(case)
         try:
